@@ -28,6 +28,10 @@ CLAIMS = {
         'text': 'Unbounded proof on the real bodies of SlotState::check_safe_to_notar, is_notar_fallback_or_stronger, count_notar_stake, count_skip_stake, add_vote, notify_parent_known, notify_parent_certified: check_safe_to_notar answers SafeToNotar exactly when the statement\'s condition holds (own vote exists and is not notar(b); notar(b) >= 40% or >= 20% with skip+notar(b) >= 60%; parent Certified) and then records b as signalled; every SafeToNotar / SafeToSkip event any of these functions emits satisfies the statement\'s condition in the resulting state, was not signalled before, and no event is emitted twice in one call; a parent-certified notification raises the event in the same call whenever the condition then holds; the own notar vote is visible to the safe-to-skip test of the same call.',
         'note': 'Same trusted base as C03. Completeness ("as soon as") is proved for the parent-certified trigger and for the own-notar/safe-to-skip ordering; the general pending-set completeness invariant and the pool-level wiring (add_block, add_valid_cert, waiting-children map) are not yet under contract.',
     },
+    'C08': {
+        'text': 'Unbounded proof on the real bodies of FinalityTracker::{default, add_parent, mark_fast_finalized, mark_notarized, mark_finalized, handle_finalized_block, handle_implicitly_finalized (recursive), prune}: from any state satisfying the representation invariant, a slot is reported finalized exactly when the statuses justify it (fast-final mark on a slot not yet finalized; notar mark meeting a pending final mark; final mark meeting a notarized block) and with that block; the highest finalized slot never decreases; no operation changes the decision of a decided slot (only ImplicitlyFinalized(h) -> Finalized(h)); every slot listed as implicitly finalized / skipped was undecided before the call (so it is never reported twice) and is decided after; the ancestor walk decides the parent and every slot between (or stops at an already skipped slot); the watermark only advances over a contiguous decided prefix, is maximal, nothing at or above it is dropped and nothing below it is retained; operations below the watermark are no-ops; parent links point to earlier slots (the add_parent assertion is a precondition, C10).',
+        'note': 'Assumed (listed in evidence): vstd BTreeMap specs; Slot/BlockId orders lawful; BTreeMap::split_off/retain and tuple clone/eq named through trusted wrappers (R8, R9); Entry API rewritten to get/insert (R5); the custom iterator future_slots rewritten to its definition (R4); the "consensus safety violation" assertions are treated as assumptions (they encode C01); slots stay below u64::MAX. Pool-level bounds checks (pool.rs add_cert/add_vote) not yet under contract.',
+    },
     'C09': {
         'text': 'Threshold arithmetic used by certificate validation is exact for all u64 stakes. (Validation logic: being built.)',
         'note': 'as C03',
